@@ -56,7 +56,16 @@ impl Out {
 			self.nontrivial.insert(fnv(&format!("{engine} {fields}")));
 		}
 		if self.samples.len() < 6 && nontrivial && self.next_id % 97 == 3 {
-			self.samples.push(format!("{engine} {fields} => {answer}"));
+			let mut sample = format!("{engine} {fields} => {answer}");
+			if sample.len() > 600 {
+				let mut cut = 600;
+				while !sample.is_char_boundary(cut) {
+					cut -= 1;
+				}
+				sample.truncate(cut);
+				sample.push_str("...");
+			}
+			self.samples.push(sample);
 		}
 	}
 
